@@ -64,7 +64,7 @@ type Op struct {
 	N  int    `json:"n,omitempty"`  // number of attributes (attrs/event/link)
 	P  int    `json:"p,omitempty"`  // perturbation before the op
 	TS int64  `json:"ts,omitempty"` // endts: offset in ms after the span's start time
-	C  int    `json:"c,omitempty"`  // status code 1 Error, 2 Ok
+	C  int    `json:"c,omitempty"`  // status: code 1 Error, 2 Ok; child: 1 = the sampler drops this child, 2 = record-only child
 }
 
 // Case is one generated program.
@@ -95,6 +95,8 @@ func gen(t *rapid.T) Case {
 				op.TS = rapid.Int64Range(1, 1000).Draw(t, "ts")
 			case "status":
 				op.C = rapid.IntRange(1, 2).Draw(t, "code")
+			case "child":
+				op.C = rapid.SampledFrom([]int{0, 0, 1, 2}).Draw(t, "child_decision")
 			}
 			ops = append(ops, op)
 		}
@@ -201,6 +203,22 @@ type opRec struct {
 	recAfter   bool // IsRecording() observed right after the op (end ops)
 }
 
+// nameSampler drops spans named child.drop.*, records-only child.recordonly.*
+// and samples everything else.
+type nameSampler struct{}
+
+func (nameSampler) ShouldSample(p sdktrace.SamplingParameters) sdktrace.SamplingResult {
+	res := sdktrace.SamplingResult{Decision: sdktrace.RecordAndSample, Tracestate: trace.SpanContextFromContext(p.ParentContext).TraceState()}
+	switch {
+	case strings.HasPrefix(p.Name, "child.drop."):
+		res.Decision = sdktrace.Drop
+	case strings.HasPrefix(p.Name, "child.recordonly."):
+		res.Decision = sdktrace.RecordOnly
+	}
+	return res
+}
+func (nameSampler) Description() string { return "c10.nameSampler" }
+
 func unlimited() sdktrace.SpanLimits {
 	return sdktrace.SpanLimits{AttributeValueLengthLimit: -1, AttributeCountLimit: -1, EventCountLimit: -1, LinkCountLimit: -1, AttributePerEventCountLimit: -1, AttributePerLinkCountLimit: -1}
 }
@@ -218,7 +236,10 @@ func runOnce(c Case) ([]vk.Violation, map[string]bool) {
 	}
 	clock := &vk.Clock{}
 	procs := make([]*recProcessor, c.Processors)
-	opts := []sdktrace.TracerProviderOption{sdktrace.WithRawSpanLimits(unlimited())}
+	// children may be sampled out or record-only (decided by their name): a
+	// span's child count is about the spans that consider it their parent,
+	// whatever the sampler answered for them
+	opts := []sdktrace.TracerProviderOption{sdktrace.WithRawSpanLimits(unlimited()), sdktrace.WithSampler(nameSampler{})}
 	for i := range procs {
 		procs[i] = &recProcessor{clock: clock, ends: map[trace.SpanID][]delivery{}}
 		opts = append(opts, sdktrace.WithSpanProcessor(procs[i]))
@@ -279,7 +300,7 @@ func runOnce(c Case) ([]vk.Violation, map[string]bool) {
 			case "isrec":
 				_ = sp.IsRecording()
 			case "child":
-				_, ch := tr.Start(ctxs[op.S], "child."+r.tag)
+				_, ch := tr.Start(ctxs[op.S], [...]string{"child.", "child.drop.", "child.recordonly."}[op.C%3]+r.tag)
 				r.end = clock.Tick() // Start returned
 				ch.End()
 			case "tracer":
@@ -494,6 +515,11 @@ func runOnce(c Case) ([]vk.Violation, map[string]bool) {
 		}
 		if childHi > 0 {
 			classes["children_started"] = true
+		}
+		for _, r := range recs {
+			if r.op.S == s && r.op.K == "child" && r.op.C%3 != 0 {
+				classes["child_dropped_or_record_only_by_sampler"] = true
+			}
 		}
 	}
 	if len(vs) > 0 {
